@@ -260,6 +260,266 @@ theorem regen_total (cfg : Cfg) (st : St) (hinj : ∀ a b, cfg.gen a = cfg.gen b
 example : (request { file := false, timeout := 2, gen := fun n => n + 1 } {} (.id 77) [.read]).2.cookie
     = some 1 := by decide
 
+
+/-! ### effects of one handler statement -/
+
+theorem hop_id (cfg : Cfg) (st : St) (s : Sess) (h : HOp) (hr : h ≠ .regenerate) :
+    (hop cfg st s h).sess.id = s.id := by
+  cases h with
+  | regenerate => exact absurd rfl hr
+  | read => simp only [hop]; split; · rfl
+            · rename_i s' hs'; exact (ensureLoaded_spec hs').1
+  | write k v => simp only [hop]; split; · rfl
+                 · rename_i s' hs'; exact (ensureLoaded_spec hs').1
+  | delKey k => simp only [hop]; split; · rfl
+                · rename_i s' hs'; exact (ensureLoaded_spec hs').1
+  | clear => simp only [hop]; split; · rfl
+             · rename_i s' hs'; exact (ensureLoaded_spec hs').1
+  | delete => simp only [hop]; split <;> rfl
+  | expire => rfl
+
+theorem hop_now (cfg : Cfg) (st : St) (s : Sess) (h : HOp) : (hop cfg st s h).st.now = st.now := by
+  cases h with
+  | regenerate =>
+    simp only [hop]; split
+    · rfl
+    · rename_i i st2 hn; exact (newId_spec hn).2.2.1
+  | read => simp only [hop]; split <;> rfl
+  | write k v => simp only [hop]; split <;> rfl
+  | delKey k => simp only [hop]; split <;> rfl
+  | clear => simp only [hop]; split <;> rfl
+  | delete => simp only [hop]; split <;> rfl
+  | expire => rfl
+
+theorem hop_ctr (cfg : Cfg) (st : St) (s : Sess) (h : HOp) : st.ctr ≤ (hop cfg st s h).st.ctr := by
+  cases h with
+  | regenerate =>
+    simp only [hop]; split
+    · exact Nat.le_refl _
+    · rename_i i st2 hn
+      obtain ⟨_, _, _, n, a, b, _⟩ := newId_spec hn
+      simp only [HRes.st]; simp only at a; omega
+  | read => simp only [hop]; split <;> exact Nat.le_refl _
+  | write k v => simp only [hop]; split <;> exact Nat.le_refl _
+  | delKey k => simp only [hop]; split <;> exact Nat.le_refl _
+  | clear => simp only [hop]; split <;> exact Nat.le_refl _
+  | delete => simp only [hop]; split <;> exact Nat.le_refl _
+  | expire => exact Nat.le_refl _
+
+/-- inside a request the store only shrinks (nothing is written before the `save` hook) -/
+theorem hop_store_sub (cfg : Cfg) (st : St) (s : Sess) (h : HOp) (p : Id × Rec)
+    (hm : p ∈ (hop cfg st s h).st.store) : p ∈ st.store := by
+  cases h with
+  | regenerate =>
+    simp only [hop] at hm; split at hm
+    · exact (mem_erase (s := st.store) (i := s.id) (j := p.1) (r := p.2) hm).1
+    · rename_i i st2 hn
+      have := (newId_spec hn).2.1
+      simp only [HRes.st] at hm
+      rw [this] at hm
+      exact (mem_erase (s := st.store) (i := s.id) (j := p.1) (r := p.2) hm).1
+  | read => simp only [hop] at hm; split at hm <;> exact hm
+  | write k v => simp only [hop] at hm; split at hm <;> exact hm
+  | delKey k => simp only [hop] at hm; split at hm <;> exact hm
+  | clear => simp only [hop] at hm; split at hm <;> exact hm
+  | delete =>
+    simp only [hop] at hm; split at hm <;>
+      exact (mem_erase (s := st.store) (i := s.id) (j := p.1) (r := p.2) hm).1
+  | expire => exact hm
+
+/-- a statement touches no stored record other than the session's own -/
+theorem hop_lookup_other (cfg : Cfg) (st : St) (s : Sess) (h : HOp) (i : Id) (hne : s.id ≠ i) :
+    lookup (hop cfg st s h).st.store i = lookup st.store i := by
+  cases h with
+  | regenerate =>
+    simp only [hop]; split
+    · exact lookup_erase_ne _ (Ne.symm hne)
+    · rename_i j st2 hn
+      have := (newId_spec hn).2.1
+      simp only [HRes.st]
+      rw [this]
+      exact lookup_erase_ne _ (Ne.symm hne)
+  | read => simp only [hop]; split <;> rfl
+  | write k v => simp only [hop]; split <;> rfl
+  | delKey k => simp only [hop]; split <;> rfl
+  | clear => simp only [hop]; split <;> rfl
+  | delete => simp only [hop]; split <;> exact lookup_erase_ne _ (Ne.symm hne)
+  | expire => rfl
+
+/-! ### C14_persist -/
+
+/-- operations that do not concern session `i`: requests presenting another (or no) cookie, clock
+    advances, sweeps, damage to other files -/
+def Quiet (i : Id) : Op → Prop
+  | .req ck _ => Cookie.presented ck ≠ some i
+  | .tear j _ => j ≠ i
+  | _ => True
+
+/-- Frame: a request that does not present `i` leaves the record stored for `i` alone. -/
+theorem request_frame (cfg : Cfg) (st : St) (ck : Cookie) (hops : List HOp) (i : Id) (rec : Rec)
+    (hq : Cookie.presented ck ≠ some i) (hl : lookup st.store i = some rec) :
+    lookup (request cfg st ck hops).1.store i = some rec := by
+  unfold request
+  split
+  · exact hl
+  · rename_i s0 st0 hi
+    obtain ⟨hs, _, _, _, _, _, _, ho⟩ := initSess_spec hi
+    have hid : s0.id ≠ i := by
+      rcases ho with ⟨a, _, _⟩ | ⟨a, _⟩
+      · intro e; rw [e] at a; exact hq a
+      · intro e; rw [e, has_false_iff, hl] at a; cases a
+    have hfin := runHops_induct (cfg := cfg)
+      (fun st1 s => s.id ≠ i ∧ lookup st1.store i = some rec) hops
+      (fun st1 s h _ hp => by
+        refine ⟨?_, ?_⟩
+        · by_cases hr : h = .regenerate
+          · subst hr
+            simp only [hop]; split
+            · exact hp.1
+            · rename_i j st2 hn
+              obtain ⟨a, b, _⟩ := newId_spec hn
+              simp only [HRes.sess]
+              intro e
+              simp only at a b
+              rw [e, has_false_iff, lookup_erase_ne _ (Ne.symm hp.1), hp.2] at a
+              cases a
+          · rw [hop_id cfg st1 s h hr]; exact hp.1
+        · rw [hop_lookup_other cfg st1 s h i hp.1]; exact hp.2)
+      st0 s0 ⟨hid, by rw [hs]; exact hl⟩
+    split
+    · rename_i st1 s1 hr
+      rw [hr] at hfin
+      simp only [HRes.st, HRes.sess] at hfin
+      simp only [saveSess]
+      split
+      · simp only; rw [lookup_upsert_ne _ _ (Ne.symm hfin.1)]; exact hfin.2
+      · exact hfin.2
+    · rename_i e st1 s1 hr
+      rw [hr] at hfin
+      exact hfin.2
+
+theorem request_now (cfg : Cfg) (st : St) (ck : Cookie) (hops : List HOp) :
+    (request cfg st ck hops).1.now = st.now := by
+  unfold request
+  split
+  · rfl
+  · rename_i s0 st0 hi
+    obtain ⟨_, hn, _⟩ := initSess_spec hi
+    have hfin := runHops_induct (cfg := cfg) (fun st1 _ => st1.now = st.now) hops
+      (fun st1 s h _ hp => by rw [hop_now]; exact hp) st0 s0 hn
+    split
+    · rename_i st1 s1 hr
+      rw [hr] at hfin
+      simp only [HRes.st] at hfin
+      simp only [saveSess]; split <;> exact hfin
+    · rename_i e st1 s1 hr
+      rw [hr] at hfin
+      exact hfin
+
+theorem step_now_le (cfg : Cfg) (st : St) (op : Op) : st.now ≤ (step cfg st op).1.now := by
+  cases op with
+  | req ck hops => simp only [step]; rw [request_now]; exact Nat.le_refl _
+  | advance d => simp only [step]; omega
+  | sweep => simp only [step]; split <;> exact Nat.le_refl _
+  | tear j e => simp only [step]; split <;> exact Nat.le_refl _
+
+theorem runSt_cons (cfg : Cfg) (st : St) (o : Op) (os : List Op) :
+    runSt cfg st (o :: os) = runSt cfg (step cfg st o).1 os := rfl
+
+theorem runSt_now_le (cfg : Cfg) (st : St) (ops : List Op) : st.now ≤ (runSt cfg st ops).now := by
+  induction ops generalizing st with
+  | nil => exact Nat.le_refl _
+  | cons o os ih =>
+    rw [runSt_cons]
+    exact Nat.le_trans (step_now_le cfg st o) (ih _)
+
+/-- the RAM sweep fires at `expiry ≤ now`, one tick before `load` gives the data up -/
+def margin (cfg : Cfg) : Nat := if cfg.file then 0 else 1
+
+theorem step_persist (cfg : Cfg) (st : St) (op : Op) (i : Id) (d : Data) (e : Nat)
+    (hq : Quiet i op) (hl : lookup st.store i = some (.good d e)) (hnow : st.now + margin cfg ≤ e) :
+    lookup (step cfg st op).1.store i = some (.good d e) := by
+  cases op with
+  | req ck hops => exact request_frame cfg st ck hops i _ hq hl
+  | advance k => exact hl
+  | sweep =>
+    simp only [step]
+    split
+    · rename_i hf
+      exact lookup_sweepFile_live hl (by simp [margin, hf] at hnow; omega)
+    · rename_i hf
+      exact lookup_sweepRam_live hl (by simp [margin, hf] at hnow; omega)
+  | tear j x =>
+    simp only [step]
+    split
+    · simp only; rw [lookup_upsert_ne _ _ (Ne.symm hq)]; exact hl
+    · exact hl
+
+/-- **Persistence (store side).**  For every history of operations that do not present `i` (other
+    clients' requests with any handler, clock advances, sweeps, damage to other files) ending no
+    later than the expiry of `i` (RAM: strictly before, because its sweep fires at `expiry ≤ now`), the
+    record saved under `i` is still there, unchanged. -/
+theorem C14_persist_store (cfg : Cfg) (ops : List Op) (st : St) (i : Id) (d : Data) (e : Nat)
+    (hq : ∀ op ∈ ops, Quiet i op) (hl : lookup st.store i = some (.good d e))
+    (hend : (runSt cfg st ops).now + margin cfg ≤ e) :
+    lookup (runSt cfg st ops).store i = some (.good d e) := by
+  induction ops generalizing st with
+  | nil => exact hl
+  | cons o os ih =>
+    rw [runSt_cons] at hend ⊢
+    have hmono := runSt_now_le cfg (step cfg st o).1 os
+    have h1 := step_now_le cfg st o
+    apply ih
+    · exact fun op hm => hq op (List.mem_cons_of_mem _ hm)
+    · exact step_persist cfg st o i d e (hq o List.mem_cons_self) hl (by omega)
+    · exact hend
+
+/-- **Persistence (request side).**  A request presenting `i` while the record is unexpired
+    (`now ≤ expiry`) adopts the id and its handler reads exactly the saved data. -/
+theorem C14_load_live (cfg : Cfg) (st : St) (i : Id) (d : Data) (e : Nat)
+    (hl : lookup st.store i = some (.good d e)) (hnow : st.now ≤ e) :
+    (request cfg st (.id i) [.read]).2 = ⟨.ok, some i, false, [d]⟩ ∧
+    lookup (request cfg st (.id i) [.read]).1.store i = some (.good d (st.now + cfg.timeout)) := by
+  have hhas : has st.store i = true := by simp [has, hl]
+  have hload : loadData st i = some d := by
+    unfold loadData
+    rw [hl]
+    simp only
+    rw [if_neg (by omega)]
+  constructor
+  · simp [request, initSess, hhas, runHops, hop, ensureLoaded, hload, saveSess]
+  · simp [request, initSess, hhas, runHops, hop, ensureLoaded, hload, saveSess, lookup_upsert_self]
+
+/-- **C14_persist**: data saved under `i` is what a later request presenting `i` reads, after any
+    history of other operations, up to the expiry. -/
+theorem C14_persist (cfg : Cfg) (ops : List Op) (st : St) (i : Id) (d : Data) (e : Nat)
+    (hq : ∀ op ∈ ops, Quiet i op) (hl : lookup st.store i = some (.good d e))
+    (hend : (runSt cfg st ops).now + margin cfg ≤ e) :
+    (request cfg (runSt cfg st ops) (.id i) [.read]).2 = ⟨.ok, some i, false, [d]⟩ := by
+  have h1 := C14_persist_store cfg ops st i d e hq hl hend
+  exact (C14_load_live cfg _ i d e h1 (by omega)).1
+
+/-- what the `save` hook stores: the handler's data, expiring `timeout` after now -/
+theorem C14_save_stores (cfg : Cfg) (st : St) (s : Sess) (hl : s.loaded = true) :
+    lookup (saveSess cfg st s).store s.id = some (.good s.data (st.now + cfg.timeout)) := by
+  simp [saveSess, hl, lookup_upsert_self]
+
+-- non-vacuity: a two-client history in which client 1's data survives client 2's traffic and a sweep
+def exCfg : Cfg := { file := true, timeout := 3, gen := fun n => n + 1 }
+def exSt : St := (request exCfg {} .none [.write 1 7]).1
+def exOps : List Op :=
+  [.req .none [.write 2 2, .regenerate], .advance 3, .sweep, .req (.id 2) [.delete]]
+
+example : ∀ op ∈ exOps, Quiet 1 op := by
+  intro op hm
+  simp only [exOps, List.mem_cons, List.not_mem_nil, or_false] at hm
+  rcases hm with rfl | rfl | rfl | rfl <;> simp [Quiet, Cookie.presented]
+
+example : lookup exSt.store 1 = some (.good [(1, 7)] 3) ∧
+    (runSt exCfg exSt exOps).now + margin exCfg ≤ 3 ∧
+    (request exCfg (runSt exCfg exSt exOps) (.id 1) [.read]).2 = ⟨.ok, some 1, false, [[(1, 7)]]⟩ := by
+  decide
+
 /-! ### C14_sweep_exact -/
 
 /-- **RAM sweep**: removes exactly the entries with `expiry ≤ now`. -/
